@@ -15,7 +15,7 @@ import json, os
 import vlib
 
 PROP = "C13"
-KINDS = ["commit-new", "commit-existing", "merge", "merge-ff", "prune", "gc"]
+KINDS = ["commit-new", "commit-existing", "merge", "merge-ff", "prune", "gc", "fetch", "pull"]
 
 
 def model_checks():
@@ -43,7 +43,7 @@ def cases(seed, tier, path):
                 for rows in ((300,) if tier == "quick" else (1, 300, 700)):
                     f.write(json.dumps({"seed": seed + rep, "idx": n, "kind": k, "mode": "trace", "rows": rows}) + "\n")
                     n += 1
-        kill_kinds = ["commit-existing", "prune", "merge"] if tier == "quick" else KINDS
+        kill_kinds = ["commit-existing", "prune", "merge", "fetch", "pull"] if tier == "quick" else KINDS
         for k in kill_kinds:
             f.write(json.dumps({"seed": seed, "idx": n, "kind": k, "mode": "kill", "rows": 300}) + "\n")
             n += 1
@@ -148,7 +148,7 @@ def run(tier, seed):
     return v.finish("fault_enumeration", cov, [
         "crash points are store-write boundaries (badger / sqlite durability below the API is trusted)",
         "a crash inside a multi-statement SQL transaction is exercised by the kill runs only (the hook between the statements is a kill point); the write traces treat the ref write as atomic",
-        "fetch / pull receive paths are exercised by the sync engine's traces when present",
+        "fetch and pull run against the harness's reference server (the real server lives in another repository)",
     ])
 
 
